@@ -62,6 +62,15 @@ def stepLine (st : Option People) (line : String) : Option People × String :=
   | ["finish"], some p => apply st (finishStep p)
   | ["register"], some p => apply st (registerState p genericState)
   | ["state"], some p => (st, "ok " ++ showPeople p)
+  | ["age", dt, ages], some p =>
+      -- `People.update_post()`: `age[alive.uids] += dt` on the observed age storage
+      match parseRat? dt, parseValList? ages with
+      | some dt, some raw =>
+          let ageArr : Arr := { raw := raw, lenUsed := p.n, lenTot := raw.length, nan := Val.nan, default := Default.unset, kind := Kind.float }
+          match agePost p.auids p.alive ageArr dt with
+          | .ok a' => (st, "ok age=" ++ showVals a'.raw)
+          | .error e => (st, showErr e)
+      | _, _ => (st, "bad-op")
   | ["load", n, ti, au, alive, tidead, m], _ =>
       -- adopt an observed population (used when a generated sim has already grown during initialisation)
       match parseNat? n, parseInt? ti, parseNatList? au, parseValList? alive, parseValList? tidead, parseNat? m with
